@@ -4,6 +4,14 @@ import json, os, sys
 V = os.path.dirname(os.path.dirname(os.path.abspath(__file__)))
 
 CLAIMED = {
+    "C01": dict(
+        technique="TLA+ program-layer model of qmail-queue with fault/kill/crash (TLC, exhaustive) + TLC trace validation of shim-recorded runs of the real qmail-queue (clean, every single injected failure, kills) with crash/data-loss closure of every prefix",
+        text="TLC explores the pc-structured model of qmail-queue over envelope variants with every single fault, kill and crash (invariants Atomic, "
+             "SuccessMeansQueued, Refusals, StateTable; three classic mutations of the model are required to fail). Every run of the real qmail-queue "
+             "(generated messages/envelopes; one run per intercepted call x failure kind; real kills) is replayed by TLC through the file-system model and "
+             "the monitors are evaluated in every state and every crash successor of every prefix; the real directory listing must equal the model state.",
+        note="directory operations synchronous and fsync durable as conf-qmail stipulates; torn sectors not modelled; shim assumed to see every file-system call",
+        design="5 C01"),
     "C05": dict(
         technique="TLA+ program-layer model of the qmail-smtpd DATA recogniser checked against a declarative RFC 5321 receiver on every prefix by TLC + TLC validation of records from real qmail-smtpd sessions (read splits by shim, round trip through the real qmail-remote)",
         text="TLC checks that the transcribed five-state recogniser agrees with the reference receiver RefRecv on every prefix of every stream up to a "
@@ -18,6 +26,13 @@ CLAIMED = {
              "messages) is a record that TLC judges with the same monitor (EodOnce/NoBareLF/lines preserved).",
         note="alphabet {CR,LF,'.',x} represents the byte classes; scripted server and seam harness are trusted to record bytes faithfully",
         design="5 C06"),
+    "C15": dict(
+        technique="TLC model check of the transcribed square-root loop, back-off formula and array heap + TLC validation of records from the real squareroot()/nextretry()/prioq.c (seam), C sweep of the post-condition over the 2^32 domain",
+        text="TLC proves on the complete domain of a scaled loop that the shift-and-subtract algorithm is the floor square root, that the back-off time is "
+             "strictly in the future, and that the array heap keeps order/minimum/bag for every operation sequence up to a bound; results of the real functions "
+             "(square boundaries, seeded grids, every operation sequence of the model's domain, long random ones) are records judged by TLC.",
+        note="function-level seams as in tests/; 32-bit TLC integers: ages >= 2^31 only in the C sweep; daemon-level retry histories (virtual clock) are added by the queue-manager controller",
+        design="5 C15"),
     "C18": dict(
         technique="TLA+ monitors for the cleaner and spawner request grammars, TLC model check of the transcribed request check, TLC validation of shim-recorded unlink/open/exec/status events of the real qmail-clean and qmail-rspawn",
         text="TLC checks the transcription of qmail-clean's request check against the monitor CleanVerdict for every request of a bounded domain; the real "
